@@ -33,6 +33,8 @@ enum Op {
     FfiGet(usize, usize),
     Push(usize, u64),
     Concat(usize, usize),
+    /// `a + b` (the script's operator; the same `concat` underneath)
+    Plus(usize, usize),
     Contains(usize, u64),
     Swap(usize, usize, usize),
     Len(usize),
@@ -53,6 +55,7 @@ impl Op {
             Op::FfiGet(l, i) => format!("f{l}.{i}"),
             Op::Push(l, v) => format!("p{l}.{v}"),
             Op::Concat(a, b) => format!("c{a}.{b}"),
+            Op::Plus(a, b) => format!("a{a}.{b}"),
             Op::Contains(l, v) => format!("h{l}.{v}"),
             Op::Swap(l, i, j) => format!("s{l}.{i}.{j}"),
             Op::Len(l) => format!("n{l}"),
@@ -72,6 +75,8 @@ impl Op {
             Op::Push(..) => "push",
             Op::Concat(a, b) if a == b => "concat-self",
             Op::Concat(..) => "concat",
+            Op::Plus(a, b) if a == b => "plus-self",
+            Op::Plus(..) => "plus",
             Op::Contains(..) => "contains",
             Op::Swap(..) => "swap",
             Op::Len(..) => "len",
@@ -86,6 +91,17 @@ impl Op {
             Op::ToVec(..) => "to_vec",
         }
     }
+    /// the operation as the model has it: the typed `==` and the script's
+    /// `==` are `Op.eq`, `+` is `concat`; through a script `get` is the
+    /// script-side get (`ffi::list_get`)
+    fn model_text(&self, script: bool) -> String {
+        match self {
+            Op::EqTyped(a, b) => format!("e{a}.{b}"),
+            Op::Plus(a, b) => format!("c{a}.{b}"),
+            Op::Get(l, i) if script => format!("f{l}.{i}"),
+            o => o.text(),
+        }
+    }
     fn parse(s: &str) -> Option<Op> {
         let (k, rest) = s.split_at(1);
         let n: Vec<u64> = rest.split('.').map(|x| x.parse().ok()).collect::<Option<_>>()?;
@@ -94,6 +110,7 @@ impl Op {
             ("f", [l, i]) => Op::FfiGet(*l as usize, *i as usize),
             ("p", [l, v]) => Op::Push(*l as usize, *v),
             ("c", [a, b]) => Op::Concat(*a as usize, *b as usize),
+            ("a", [a, b]) => Op::Plus(*a as usize, *b as usize),
             ("h", [l, v]) => Op::Contains(*l as usize, *v),
             ("s", [l, i, j]) => Op::Swap(*l as usize, *i as usize, *j as usize),
             ("n", [l]) => Op::Len(*l as usize),
@@ -146,15 +163,23 @@ struct Case {
     /// is judged by the property oracle only (the Lean model's steps are
     /// those of `u64` elements)
     elem: bool,
+    /// the operations that have a script-side adapter (get, push, concat /
+    /// `+`, contains, index, swap, len, is_empty, `==`) are called through
+    /// compiled Roto functions (`u64` elements)
+    script: bool,
 }
 
 impl Case {
     fn lists_text(&self) -> String {
         self.lists.iter().map(|l| format!("L{}", dots(l))).collect::<Vec<_>>().join(";")
     }
-    /// the programs as the model sees them (the typed `==` is `Op.eq`)
+    /// the programs as the model sees them
     fn model_progs_text(&self) -> String {
-        self.progs_text().replace('E', "e")
+        self.progs
+            .iter()
+            .map(|p| p.iter().map(|o| o.model_text(self.script)).collect::<Vec<_>>().join(","))
+            .collect::<Vec<_>>()
+            .join(";")
     }
     fn progs_text(&self) -> String {
         self.progs
@@ -175,22 +200,117 @@ impl Case {
             .split(';')
             .map(|p| if p.is_empty() { Some(vec![]) } else { p.split(',').map(Op::parse).collect() })
             .collect::<Option<Vec<_>>>()?;
-        Some(Case { lists, progs, elem: false })
+        Some(Case { lists, progs, elem: false, script: false })
     }
     fn json(&self) -> serde_json::Value {
+        let mut j = json!({"lists": self.lists_text(), "progs": self.progs_text()});
         if self.elem {
-            json!({"lists": self.lists_text(), "progs": self.progs_text(), "elem": true})
-        } else {
-            json!({"lists": self.lists_text(), "progs": self.progs_text()})
+            j["elem"] = json!(true);
         }
+        if self.script {
+            j["script"] = json!(true);
+        }
+        j
     }
     /// class signature: the kinds of operations per thread (sorted by thread text)
     fn kinds(&self) -> String {
         let mut t: Vec<String> =
             self.progs.iter().map(|p| p.iter().map(|o| o.kind()).collect::<Vec<_>>().join("+")).collect();
         t.sort();
-        if self.elem { format!("elem:{}", t.join("|")) } else { t.join("|") }
+        if self.elem {
+            format!("elem:{}", t.join("|"))
+        } else if self.script {
+            format!("script:{}", t.join("|"))
+        } else {
+            t.join("|")
+        }
     }
+}
+
+// ---------------------------------------------------------------- the script-side adapters
+
+const SCRIPT_SRC: &str = "
+fn l_get(l: List[u64], i: u64) -> u64? { l.get(i) }
+fn l_push(l: List[u64], v: u64) { l.push(v); }
+fn l_concat(a: List[u64], b: List[u64]) -> List[u64] { a.concat(b) }
+fn l_plus(a: List[u64], b: List[u64]) -> List[u64] { a + b }
+fn l_contains(l: List[u64], v: u64) -> bool { l.contains(v) }
+fn l_index(l: List[u64], v: u64) -> u64? { l.index(v) }
+fn l_swap(l: List[u64], i: u64, j: u64) { l.swap(i, j); }
+fn l_len(l: List[u64]) -> u64 { l.len() }
+fn l_is_empty(l: List[u64]) -> bool { l.is_empty() }
+fn l_eq(a: List[u64], b: List[u64]) -> bool { a == b }
+";
+
+type L = List<u64>;
+type TF<F> = roto::TypedFunc<roto::NoCtx, F>;
+
+/// the list operations as compiled Roto functions (`src/runtime/basic.rs`
+/// adapters between the script and `ErasedList`)
+struct ScriptFns {
+    get: TF<fn(L, u64) -> Option<u64>>,
+    push: TF<fn(L, u64)>,
+    concat: TF<fn(L, L) -> L>,
+    plus: TF<fn(L, L) -> L>,
+    contains: TF<fn(L, u64) -> bool>,
+    index: TF<fn(L, u64) -> Option<u64>>,
+    swap: TF<fn(L, u64, u64)>,
+    len: TF<fn(L) -> u64>,
+    is_empty: TF<fn(L) -> bool>,
+    eq: TF<fn(L, L) -> bool>,
+}
+
+fn script_fns() -> &'static ScriptFns {
+    static FNS: std::sync::OnceLock<ScriptFns> = std::sync::OnceLock::new();
+    FNS.get_or_init(|| {
+        let rt = roto::Runtime::new();
+        let mut pkg = roto::FileTree::test_file("c16.roto", SCRIPT_SRC, 0)
+            .compile(&rt)
+            .unwrap_or_else(|e| panic!("the C16 script does not compile: {e}"));
+        ScriptFns {
+            get: pkg.get_function("l_get").expect("l_get"),
+            push: pkg.get_function("l_push").expect("l_push"),
+            concat: pkg.get_function("l_concat").expect("l_concat"),
+            plus: pkg.get_function("l_plus").expect("l_plus"),
+            contains: pkg.get_function("l_contains").expect("l_contains"),
+            index: pkg.get_function("l_index").expect("l_index"),
+            swap: pkg.get_function("l_swap").expect("l_swap"),
+            len: pkg.get_function("l_len").expect("l_len"),
+            is_empty: pkg.get_function("l_is_empty").expect("l_is_empty"),
+            eq: pkg.get_function("l_eq").expect("l_eq"),
+        }
+    })
+}
+
+/// what a script-side operation gave: a result, or the fresh list of a concat
+enum ScriptOut<T: roto::Value> {
+    Res(Res),
+    NewList(List<T>),
+}
+
+fn script_op_u64(op: &Op, bag: &[Vec<L>]) -> Option<ScriptOut<u64>> {
+    let f = script_fns();
+    let h = |l: &usize| bag[*l].last().unwrap().clone();
+    Some(match op {
+        Op::Get(l, i) | Op::FfiGet(l, i) => ScriptOut::Res(Res::Opt(f.get.call(h(l), *i as u64))),
+        Op::Push(l, v) => {
+            f.push.call(h(l), *v);
+            ScriptOut::Res(Res::Unit)
+        }
+        Op::Concat(a, b) => ScriptOut::NewList(f.concat.call(h(a), h(b))),
+        Op::Plus(a, b) => ScriptOut::NewList(f.plus.call(h(a), h(b))),
+        Op::Contains(l, v) => ScriptOut::Res(Res::Bool(f.contains.call(h(l), *v))),
+        Op::Index(l, v) => ScriptOut::Res(Res::Opt(f.index.call(h(l), *v))),
+        Op::Swap(l, i, j) => {
+            f.swap.call(h(l), *i as u64, *j as u64);
+            ScriptOut::Res(Res::Unit)
+        }
+        Op::Len(l) => ScriptOut::Res(Res::Nat(f.len.call(h(l)) as usize)),
+        Op::IsEmpty(l) => ScriptOut::Res(Res::Bool(f.is_empty.call(h(l)))),
+        Op::Eq(a, b) => ScriptOut::Res(Res::Bool(f.eq.call(h(a), h(b)))),
+        // no script-side adapter: the Rust side
+        Op::EqTyped(..) | Op::ToVec(..) | Op::Clone(..) | Op::Drop(..) => return None,
+    })
 }
 
 // ---------------------------------------------------------------- element types
@@ -205,6 +325,10 @@ trait El: 'static {
     fn ffi_get(l: &List<Self::T>, i: u64) -> Option<(u64, u64)>;
     fn contains_owned(l: &List<Self::T>, v: u64) -> bool;
     fn erased_eq(a: &List<Self::T>, b: &List<Self::T>) -> bool;
+    /// the operation through its script-side adapter (`u64` lists only)
+    fn script_op(_op: &Op, _bag: &[Vec<List<Self::T>>]) -> Option<ScriptOut<Self::T>> {
+        None
+    }
 }
 
 struct U64El;
@@ -227,6 +351,9 @@ impl El for U64El {
     }
     fn erased_eq(a: &List<u64>, b: &List<u64>) -> bool {
         hk::erased_eq_u64(a, b)
+    }
+    fn script_op(op: &Op, bag: &[Vec<List<u64>>]) -> Option<ScriptOut<u64>> {
+        script_op_u64(op, bag)
     }
 }
 
@@ -341,6 +468,7 @@ fn run_thread<E: El>(
     mut bag: Vec<Vec<List<E::T>>>,
     done: std::sync::Arc<std::sync::Mutex<Vec<Vec<Res>>>>,
     flags: Flags,
+    script: bool,
 ) -> ThreadOut<E> {
     session.attach(tid);
     let mut results = vec![];
@@ -355,23 +483,44 @@ fn run_thread<E: El>(
             };
             let vals = |v: &[E::T]| -> Vec<u64> { v.iter().map(|e| one(E::halves(e))).collect() };
             hk::op_begin();
-            let res = match op {
+            // the result of a concat: must be a fresh list, not one of the
+            // operands; reading (and releasing) it is not part of the
+            // operation — detach meanwhile. Afterwards a push to the result,
+            // which no operand may see.
+            let fresh = |n: List<E::T>, a: &usize, b: &usize| -> Res {
+                let id = E::lock_id(&n);
+                if id == E::lock_id(bag[*a].last().unwrap()) || id == E::lock_id(bag[*b].last().unwrap()) {
+                    flags.lock().unwrap().push((tid, opi, "concat-aliases-operand".into()));
+                }
+                Res::List(vals(&unattached(&session, tid, move || {
+                    let v = n.to_vec();
+                    n.push(E::mk(99));
+                    v
+                })))
+            };
+            if script {
+                if let Op::Eq(a, b) = op {
+                    if a == b {
+                        // `l == l` takes no lock: the operation's one step starts here
+                        hk::sched_op("harness:eq-same");
+                    }
+                }
+            }
+            let scripted = if script { E::script_op(op, &bag) } else { None };
+            let res = match (scripted, op) {
+                (Some(ScriptOut::Res(r)), _) => r,
+                (Some(ScriptOut::NewList(n)), Op::Concat(a, b) | Op::Plus(a, b)) => fresh(n, a, b),
+                (Some(ScriptOut::NewList(_)), _) => unreachable!(),
+                (None, op) => match op {
                 Op::Get(l, i) => Res::Opt(bag[*l].last().unwrap().get(*i).map(|e| one(E::halves(&e)))),
                 Op::FfiGet(l, i) => Res::Opt(E::ffi_get(bag[*l].last().unwrap(), *i as u64).map(one)),
                 Op::Push(l, v) => {
                     bag[*l].last().unwrap().push(E::mk(*v));
                     Res::Unit
                 }
-                Op::Concat(a, b) => {
+                Op::Concat(a, b) | Op::Plus(a, b) => {
                     let n = bag[*a].last().unwrap().concat(bag[*b].last().unwrap());
-                    // the result must be a fresh list, not one of the operands
-                    let id = E::lock_id(&n);
-                    if id == E::lock_id(bag[*a].last().unwrap()) || id == E::lock_id(bag[*b].last().unwrap()) {
-                        flags.lock().unwrap().push((tid, opi, "concat-aliases-operand".into()));
-                    }
-                    // reading (and releasing) the private result is not part
-                    // of the operation — detach meanwhile
-                    Res::List(vals(&unattached(&session, tid, move || n.to_vec())))
+                    fresh(n, a, b)
                 }
                 Op::Contains(l, v) => Res::Bool(E::contains_owned(bag[*l].last().unwrap(), *v)),
                 Op::Swap(l, i, j) => {
@@ -405,6 +554,7 @@ fn run_thread<E: El>(
                     }
                     Res::Bool(E::erased_eq(bag[*a].last().unwrap(), bag[*b].last().unwrap()))
                 }
+                },
             };
             done.lock().unwrap()[tid].push(res.clone());
             results.push(res);
@@ -448,7 +598,13 @@ fn exec(case: &Case, prefix: &[usize], extend: bool) -> Exec {
 
 fn exec_with<E: El>(case: &Case, prefix: &[usize], extend: bool) -> Exec {
     let n = case.progs.len();
-    let session = hk::Session::new(n, true);
+    // through a script a stale use cannot unwind (frames of compiled code):
+    // it is reported and performed
+    let script = case.script;
+    if script {
+        let _ = script_fns(); // compile before anybody is attached
+    }
+    let session = hk::Session::new(n, !script);
     // list index order = address order of the lists' mutexes (`==` locks in
     // address order; the model uses the index)
     let mut shared: Vec<List<E::T>> = case.lists.iter().map(|_| List::new()).collect();
@@ -469,7 +625,7 @@ fn exec_with<E: El>(case: &Case, prefix: &[usize], extend: bool) -> Exec {
         let mut tries = 0;
         let handle = loop {
             let (s, p, bag, d, f) = job.take().unwrap();
-            let r = std::thread::Builder::new().stack_size(256 * 1024).spawn(move || run_thread::<E>(s, t, p, bag, d, f));
+            let r = std::thread::Builder::new().stack_size(256 * 1024).spawn(move || run_thread::<E>(s, t, p, bag, d, f, script));
             match r {
                 Ok(h) => break h,
                 Err(e) => {
@@ -567,10 +723,18 @@ fn exec_with<E: El>(case: &Case, prefix: &[usize], extend: bool) -> Exec {
     // element-level schedule point by `abort` runs on to the end of its program)
     let results_at_end = done.lock().unwrap().clone();
     if !clean {
-        session.abort();
+        if script {
+            session.abort_nounwind();
+        } else {
+            session.abort();
+        }
     }
     let mut outs = vec![];
-    if ex.end != "hung" {
+    if script && (ex.end == "dl" || ex.end == "hung") {
+        // the threads stay blocked on the real locks for good: leave them
+        LEAKED_SESSIONS.fetch_add(1, std::sync::atomic::Ordering::SeqCst);
+        std::mem::forget(joins);
+    } else if ex.end != "hung" {
         for j in joins {
             match j.join() {
                 Ok(o) => outs.push(o),
@@ -607,13 +771,16 @@ fn exec_with<E: El>(case: &Case, prefix: &[usize], extend: bool) -> Exec {
     ex
 }
 
+/// script-side sessions that ended in a deadlock: their threads are still there
+static LEAKED_SESSIONS: std::sync::atomic::AtomicUsize = std::sync::atomic::AtomicUsize::new(0);
+
 /// every maximal schedule of the real code, by stateless depth-first search
 fn enumerate_real(case: &Case, limit: usize) -> (Vec<Exec>, bool) {
     let mut out = vec![];
     let mut todo: Vec<Vec<usize>> = vec![vec![]];
     let mut cut = false;
     while let Some(prefix) = todo.pop() {
-        if out.len() >= limit {
+        if out.len() >= limit || LEAKED_SESSIONS.load(std::sync::atomic::Ordering::SeqCst) > 40 {
             cut = true;
             break;
         }
@@ -648,7 +815,7 @@ fn spec_op(lists: &mut [Vec<u64>], op: &Op) -> Res {
             lists[*l].push(*v);
             Res::Unit
         }
-        Op::Concat(a, b) => {
+        Op::Concat(a, b) | Op::Plus(a, b) => {
             let mut v = lists[*a].clone();
             v.extend_from_slice(&lists[*b]);
             Res::List(v)
@@ -722,7 +889,7 @@ fn explained_by_two_section_concat(case: &Case, ex: &Exec) -> bool {
         };
         let op = &case.progs[t][i];
         let st = &ex.op_steps[t][i];
-        if let Op::Concat(a, b) = op {
+        if let Op::Concat(a, b) | Op::Plus(a, b) = op {
             if st.len() != 3 {
                 return false;
             }
@@ -749,6 +916,9 @@ fn replay_json(case: &Case, ex: &Exec) -> serde_json::Value {
     let mut j = json!({"lists": case.lists_text(), "progs": case.progs_text(), "sched": ex.sched_text(), "observed": ex.obs()});
     if case.elem {
         j["elem"] = json!(true);
+    }
+    if case.script {
+        j["script"] = json!(true);
     }
     j
 }
@@ -912,7 +1082,9 @@ fn random_op(rng: &mut Prng) -> Op {
         0 | 1 => Op::Get(l, rng.below(6) as usize),
         2 | 3 => Op::FfiGet(l, rng.below(6) as usize),
         4 | 5 | 6 => Op::Push(l, 6 + rng.below(4)),
-        7 => Op::Concat(l, rng.below(2) as usize),
+        7 => {
+            if rng.chance(1, 3) { Op::Plus(l, rng.below(2) as usize) } else { Op::Concat(l, rng.below(2) as usize) }
+        }
         8 => Op::Contains(l, 1 + rng.below(8)),
         9 => Op::Swap(l, rng.below(5) as usize, rng.below(5) as usize),
         10 => {
@@ -1013,6 +1185,7 @@ fn representatives() -> Vec<Case> {
                 lists: vec![vec![1, 2, 3, 4], vec![1, 1, 3, 4]],
                 progs: vec![vec![w.clone()], vec![m.clone()]],
                 elem: true,
+                script: false,
             });
         }
     }
@@ -1023,6 +1196,61 @@ fn representatives() -> Vec<Case> {
                 lists: vec![vec![1, 2, 3, 4], vec![1, 2, 3, 4]],
                 progs: vec![vec![w.clone()], vec![m.clone()]],
                 elem: true,
+                script: false,
+            });
+        }
+    }
+    // (c) the script-side adapters (`src/runtime/basic.rs`): histories through
+    // compiled Roto functions — `a.concat(b)` and `a + b` with empty and
+    // non-empty operands in every order, then a push / swap on the operands
+    // (and, inside the harness, a push to the result) and reads of all of
+    // them: first one thread alone, then against a pusher under the scheduler
+    for (a, b) in [(vec![], vec![1u64, 2]), (vec![1, 2], vec![]), (vec![], vec![]), (vec![1, 2], vec![3])] {
+        for (x, y) in [(0, 1), (1, 0), (0, 0), (1, 1)] {
+            for plus in [false, true] {
+                let c = if plus { Op::Plus(x, y) } else { Op::Concat(x, y) };
+                out.push(Case {
+                    lists: vec![a.clone(), b.clone()],
+                    progs: vec![vec![
+                        c.clone(),
+                        Op::Push(0, 9),
+                        Op::Swap(1, 0, 1),
+                        Op::ToVec(0),
+                        Op::ToVec(1),
+                        Op::Get(0, 0),
+                        Op::Len(1),
+                        Op::Eq(0, 1),
+                    ]],
+                    elem: false,
+                    script: true,
+                });
+                out.push(Case {
+                    lists: vec![a.clone(), b.clone()],
+                    progs: vec![vec![c, Op::ToVec(x)], vec![Op::Push(y, 8)]],
+                    elem: false,
+                    script: true,
+                });
+            }
+        }
+    }
+    // every scripted operation against a relocating push and a swap
+    for w in [
+        Op::Get(0, 1),
+        Op::Contains(0, 2),
+        Op::Index(0, 2),
+        Op::Eq(0, 1),
+        Op::Eq(1, 0),
+        Op::Len(0),
+        Op::IsEmpty(0),
+        Op::Swap(0, 1, 2),
+        Op::Push(0, 6),
+    ] {
+        for m in [Op::Push(0, 7), Op::Swap(0, 0, 1)] {
+            out.push(Case {
+                lists: vec![vec![1, 2, 3, 4], vec![1, 2, 3, 4]],
+                progs: vec![vec![w.clone()], vec![m]],
+                elem: false,
+                script: true,
             });
         }
     }
@@ -1033,6 +1261,7 @@ fn representatives() -> Vec<Case> {
                     lists: vec![a.clone(), b.clone()],
                     progs: vec![vec![c, Op::Push(0, 9), Op::ToVec(1)], vec![Op::Push(1, 8)]],
                     elem,
+                    script: false,
                 });
             }
         }
@@ -1053,7 +1282,7 @@ fn random_elem_case(seed: u64, index: u64) -> Case {
         let n = 1 + rng.below(2) as usize;
         progs.push((0..n).map(|_| random_op(&mut rng)).collect());
     }
-    Case { lists, progs, elem: true }
+    Case { lists, progs, elem: true, script: false }
 }
 
 /// case `index` of the run
@@ -1072,6 +1301,7 @@ fn case_for(seed: u64, thorough: bool, index: u64) -> Case {
             lists: base_lists(),
             progs: vec![vec![a[(index / na) as usize].clone()], vec![a[(index % na) as usize].clone()]],
             elem: false,
+            script: false,
         };
     }
     let index = index - na * na;
@@ -1089,7 +1319,8 @@ fn case_for(seed: u64, thorough: bool, index: u64) -> Case {
             let p: Vec<Op> = (0..n).map(|_| random_op(&mut rng)).collect();
             progs.push(with_drops(&p, &mut rng));
         }
-        return Case { lists: random_lists(&mut rng), progs, elem: false };
+        // every 8th random case goes through the script-side adapters
+        return Case { lists: random_lists(&mut rng), progs, elem: false, script: index % 8 == 3 };
     }
     let index = index - n_random(thorough);
     // 2b. random cases over probe elements
@@ -1100,7 +1331,7 @@ fn case_for(seed: u64, thorough: bool, index: u64) -> Case {
     let index = index - n_random_elem(thorough);
     let sp = small_programs();
     let n = sp.len() as u64;
-    Case { lists: base_lists(), progs: vec![sp[(index / n) as usize].clone(), sp[(index % n) as usize].clone()], elem: false }
+    Case { lists: base_lists(), progs: vec![sp[(index / n) as usize].clone(), sp[(index % n) as usize].clone()], elem: false, script: false }
 }
 
 fn total_cases(thorough: bool) -> u64 {
@@ -1140,7 +1371,16 @@ fn run_case(case: &Case, drv: Option<&mut Driver>, rep: &mut Report, limit: usiz
     let limit = if case.elem { limit.min(400) } else { limit };
     let drv = if case.elem { None } else { drv };
     let (execs, cut) = enumerate_real(case, limit);
-    rep.hist("elements", if case.elem { "probe (element-level schedule points)" } else { "u64" });
+    rep.hist(
+        "elements",
+        if case.elem {
+            "probe (element-level schedule points)"
+        } else if case.script {
+            "u64 through compiled scripts"
+        } else {
+            "u64"
+        },
+    );
     rep.hist("schedules-per-case", bucket(execs.len()));
     rep.hist("threads", case.progs.len().to_string());
     for p in &case.progs {
@@ -1274,7 +1514,7 @@ fn stress_case(seed: u64, index: u64) -> Case {
     let len0 = *rng.pick(&[4usize, 4, 4, 8]);
     // list 1: now and then equal to list 0, so that `==` walks to the end
     let l1: Vec<u64> = if rng.chance(1, 3) { (1..=len0 as u64).collect() } else { vec![5, 6, 7, 8] };
-    Case { lists: vec![(1..=len0 as u64).collect(), l1], progs, elem: false }
+    Case { lists: vec![(1..=len0 as u64).collect(), l1], progs, elem: false, script: false }
 }
 
 /// spawn a thread; if the machine is out of threads for a moment, wait and try again
@@ -1337,7 +1577,7 @@ fn run_stress_trial(case: &Case, spin: [u32; 2]) -> (Vec<Vec<Res>>, Vec<Vec<u64>
                     Op::Eq(a, b) => Res::Bool(hk::erased_eq_u64(&lists[*a], &lists[*b])),
                     Op::Index(l, v) => Res::Opt(lists[*l].index(v).map(|i| i as u64)),
                     Op::IsEmpty(l) => Res::Bool(lists[*l].is_empty()),
-                    Op::Concat(a, b) => Res::List(lists[*a].concat(&lists[*b]).to_vec()),
+                    Op::Concat(a, b) | Op::Plus(a, b) => Res::List(lists[*a].concat(&lists[*b]).to_vec()),
                     Op::Clone(_) | Op::Drop(_) => Res::Unit,
                 });
             }
@@ -1690,6 +1930,7 @@ fn main() {
             let v: serde_json::Value = serde_json::from_str(&args[2]).expect("json");
             let mut case = Case::parse(v["lists"].as_str().unwrap_or(""), v["progs"].as_str().unwrap_or("")).expect("case");
             case.elem = v["elem"].as_bool() == Some(true);
+            case.script = v["script"].as_bool() == Some(true);
             if v["stress"].as_bool() == Some(true) {
                 // probabilistic: repeat the race
                 let seed = v["seed"].as_u64().unwrap_or(1);
